@@ -36,10 +36,25 @@
     `C09_live_at_end`: not ended at the end of the call implies not ended when the round started;
     `C09_call_deliveries`: exactly the numbers `C09.checkCall` demands of a machine that is live
     at the end of the call.
+  * The monitor tied to the model (`Proofs/MonitorAcceptB.lean`): `C09_call_accepted` - for every
+    machine set, oracle, batch and state (whatever signal the previous call left pending),
+    `C09.checkCall`, given the slot at the start of the call, the call's chronological log segment and
+    "not ended after the call", reports nothing. The proof reads the segment in three parts
+    (reported events; first delivery round; second delivery round) and shows whose entries each part
+    holds: the reported events never sample a target on the Signal event, so every transition to the
+    signal pseudo-state there counts as a signaller; the first round with a lone signaller `x` holds
+    entries of machines other than `x` only, the second round entries of `x` only; so "the first
+    round left a signal pending" shows in the log as a signaller or responder other than `x`, which
+    is exactly what the monitor's `many` / `answered` test. `C09_monitor_accepts_model`: hence
+    `C09.monitor` returns `none` on the trace the model itself produces (`LL.modelTrace`) for EVERY
+    machine set, configuration, oracle and history, the pending signal handed from call to call being
+    the snapshot's (including the deferred second-round signal of a lone signaller). No hypothesis
+    is needed (no validity or no-fault assumption; a faulting call ends the monitor's walk).
   The implementation is tied to this by the correspondence of the full internal log (tag L) and by
   the monitor `C09.monitor` on the implementation's traces.
 -/
 import MbVerif.Proofs.SigCount
+import MbVerif.Proofs.MonitorAcceptB
 import MbVerif.Proofs.SigDeliver
 import MbVerif.Proofs.SigSlot
 import MbVerif.Proofs.SigLive
@@ -280,5 +295,110 @@ example : signalsIn [.sampled 2 0 STATE_SIGNAL, .trans 2 0 1, .sampled 1 3 0, .s
   decide
 example : deliveries [.trans 1 Gen.EV_Signal 0, .trans 2 Gen.EV_Signal STATE_END, .trans 1 0 0] 1 = 1 := by decide
 example : deliveries [.trans 1 Gen.EV_Signal 0, .trans 2 Gen.EV_Signal STATE_END, .trans 1 0 0] 2 = 0 := by decide
+
+/-! ### the monitor tied to the model -/
+
+/-- **`C09.checkCall` accepts every call of the model.** For every machine set, oracle, batch, time
+    and state with one runtime per machine - whatever signal the previous call left pending in
+    `s.signalPending` -: the monitor's per-call check, given the number of machines, the slot at the
+    start of the call, the chronological log segment of the call and "not ended after the call",
+    reports nothing. That is, on the log: no machine receives two Signals; if two distinct machines
+    count as signallers (signalled on an event other than Signal in this call, or carried over),
+    every live machine receives exactly one; if nobody does, nobody receives one; if only `x` does,
+    every other live machine receives exactly one and `x` receives one iff a machine other than `x`
+    answered a delivered Signal by signalling, none otherwise. -/
+theorem C09_call_accepted (es : List TEvent) (t : Int) (s : Fw σ) (hlen : s.rt.length = s.machines.length)
+    (l : List LogEntry) (hl : (triggerEvents ρ es t s).log = l ++ s.log) :
+    checkCall s.rt.length s.signalPending l.reverse (fun j => notEnded (triggerEvents ρ es t s) j) = none :=
+  MB.checkCall_of_facts _ _ _ _ (MB.call_facts ρ es t s hlen l hl)
+
+/-- the three parts of a call's log, for the record: the reported events sample no target on the
+    Signal event (so the monitor counts every signalling transition there as a signaller, never as
+    a responder) -/
+theorem C09_events_sample_no_signal_event (es : List TEvent) (t : Int) (s : Fw σ) (l1 : List LogEntry)
+    (hl : (eventsDone ρ es t s).log = l1 ++ s.log) (m nx : Nat) : LogEntry.sampled m Gen.EV_Signal nx ∉ l1 :=
+  MB.events_noSignalEv ρ es t s l1 hl m nx
+
+/-- with a lone signaller `x`, the first delivery round logs deliveries and sampled targets of
+    machines other than `x` only (`l2`), the second round of `x` only (`l3`), each on the Signal
+    event or on a CounterZero raised by it -/
+theorem C09_round_parts (s : Fw σ) (x : Nat) (h : s.signalPending = some (.allExcept x)) :
+    ∃ l2 l3, (afterFirst ρ s (some x)).log = l2 ++ s.log ∧ (signalRound ρ s).log = l3 ++ (l2 ++ s.log) ∧
+      (∀ e ∈ l2, ∃ j, j ≠ x ∧ MB.Own j Gen.EV_Signal e) ∧ (∀ e ∈ l3, MB.Own x Gen.EV_Signal e) :=
+  MB.round_lone_log ρ s x h
+
+/-- **`C09.monitor` accepts the model's own trace of every history**: for every machine set,
+    configuration, oracle and history of calls, the monitor applied to the trace of the model
+    (`LL.modelTrace`: the records the driver builds - events, outcome, returned actions, snapshot and
+    the call's log) reports no violation; the pending signal handed from one call to the next is the
+    one in the model's snapshot. No hypothesis; the monitor stops at a call that faults. -/
+theorem C09_monitor_accepts_model (ms : List Machine) (fp fb : F64) (t0 : Int) (rng : σ) (h : List Call) :
+    monitor (LL.modelTrace ρ ms fp fb t0 rng h) = none :=
+  MB.monitor09_model ρ ms fp fb t0 rng h
+
+section MonitorDemo
+
+/-- signals on NormalSent (event 3) and answers a Signal (event 12) by signalling -/
+private def sSt0 : State :=
+  { action := none, counterA := none, counterB := none,
+    transitions := ((List.replicate 13 none).set 3 (some [{ target := STATE_SIGNAL, prob := 1065353216 }])).set 12
+      (some [{ target := STATE_SIGNAL, prob := 1065353216 }]) }
+/-- answers a Signal by signalling -/
+private def sSt1 : State :=
+  { action := none, counterA := none, counterB := none,
+    transitions := (List.replicate 13 none).set 12 (some [{ target := STATE_SIGNAL, prob := 1065353216 }]) }
+/-- signals on its own PaddingSent (event 4) -/
+private def sSt2 : State :=
+  { action := none, counterA := none, counterB := none,
+    transitions := (List.replicate 13 none).set 4 (some [{ target := STATE_SIGNAL, prob := 1065353216 }]) }
+private def sM0 : Machine :=
+  { allowedPaddingPackets := 0, maxPaddingFrac := 0, allowedBlockedMicrosec := 0, maxBlockingFrac := 0, states := [sSt0] }
+private def sM1 : Machine :=
+  { allowedPaddingPackets := 0, maxPaddingFrac := 0, allowedBlockedMicrosec := 0, maxBlockingFrac := 0, states := [sSt1] }
+private def sM2 : Machine :=
+  { allowedPaddingPackets := 0, maxPaddingFrac := 0, allowedBlockedMicrosec := 0, maxBlockingFrac := 0, states := [sSt2] }
+private def sρ : Oracle Unit := { u := fun _ => (0, ()), d := fun _ _ => (0, ()) }
+private def sTrace : FwTrace :=
+  LL.modelTrace sρ [sM0, sM1, sM2] 0 0 0 ()
+    [([.normalSent], 10), ([], 20), ([.normalSent, .paddingSent 2], 30), ([.tunnelSent], 40)]
+
+/-- Non-vacuity of `C09_monitor_accepts_model`: no call faults (the monitor walks all four). Call 1:
+    machine 0 is the lone signaller, machines 1 and 2 receive Signal (event 12), machine 1 answers,
+    so machine 0 receives its Signal in the second round - and answers too, which leaves
+    `allExcept 0` pending for the next call. Call 2 reports no event at all: the carried-over signal
+    alone causes the same round. Call 3: machines 0 and 2 both signal, everybody receives exactly one
+    Signal and nothing stays pending. Call 4: no signal, no delivery. -/
+example : sTrace.calls.map (·.res) = [.ok, .ok, .ok, .ok] ∧
+    sTrace.calls.map (·.log) =
+      [[.trans 0 3 0, .draw 0, .sampled 0 3 STATE_SIGNAL, .trans 1 3 0, .trans 2 3 0,
+        .trans 1 12 0, .draw 0, .sampled 1 12 STATE_SIGNAL, .trans 2 12 0,
+        .trans 0 12 0, .draw 0, .sampled 0 12 STATE_SIGNAL],
+       [.trans 1 12 0, .draw 0, .sampled 1 12 STATE_SIGNAL, .trans 2 12 0,
+        .trans 0 12 0, .draw 0, .sampled 0 12 STATE_SIGNAL],
+       [.trans 0 3 0, .draw 0, .sampled 0 3 STATE_SIGNAL, .trans 1 3 0, .trans 2 3 0,
+        .trans 2 4 0, .draw 0, .sampled 2 4 STATE_SIGNAL, .limit 2 0 true,
+        .trans 0 12 0, .draw 0, .sampled 0 12 STATE_SIGNAL, .trans 1 12 0, .draw 0, .sampled 1 12 STATE_SIGNAL,
+        .trans 2 12 0],
+       [.trans 0 5 0, .trans 1 5 0, .trans 2 5 0]] ∧
+    sTrace.calls.map (·.snap.signalPending) = [some (.allExcept 0), some (.allExcept 0), none, none] ∧
+    monitor sTrace = none := by decide +kernel
+
+/-- Non-vacuity of `checkCall` (three live machines): call 1 without the second-round delivery to
+    the answered lone signaller is rejected; the log of call 2 is rejected when the carried-over
+    signal is forgotten and accepted with it; a second Signal to the same machine is rejected. -/
+example :
+    (checkCall 3 none
+      [.trans 0 3 0, .draw 0, .sampled 0 3 STATE_SIGNAL, .trans 1 3 0, .trans 2 3 0,
+       .trans 1 12 0, .draw 0, .sampled 1 12 STATE_SIGNAL, .trans 2 12 0] (fun _ => true)).isSome = true ∧
+    (checkCall 3 none
+      [.trans 1 12 0, .draw 0, .sampled 1 12 STATE_SIGNAL, .trans 2 12 0,
+       .trans 0 12 0, .draw 0, .sampled 0 12 STATE_SIGNAL] (fun _ => true)).isSome = true ∧
+    checkCall 3 (some (.allExcept 0))
+      [.trans 1 12 0, .draw 0, .sampled 1 12 STATE_SIGNAL, .trans 2 12 0,
+       .trans 0 12 0, .draw 0, .sampled 0 12 STATE_SIGNAL] (fun _ => true) = none ∧
+    (checkCall 3 (some .all) [.trans 0 12 0, .trans 1 12 0, .trans 1 12 0, .trans 2 12 0] (fun _ => true)).isSome = true := by
+  decide +kernel
+
+end MonitorDemo
 
 end Mb.C09
